@@ -13,7 +13,7 @@
 
   (A) universal theorems (this file):
       MIPS (mips, mipsel): addu subu and or xor nor (incl. capstone's move/negu forms) · sll srl sra (and nop) · sllv srlv srav ·
-      addiu andi ori xori · lui · slt sltu slti sltiu · movn movz · mfhi mflo mthi mtlo · mult multu · lb lbu lh lhu lw · sb sh sw ·
+      addiu andi ori xori · lui · slt sltu slti sltiu · movn movz · mfhi mflo mthi mtlo · mult multu mul · lb lbu lh lhu lw · sb sh sw ·
       lwl lwr in both byte orders · add addi sub (both paths: `lift_correct_single` without overflow, `lift_overflow_stops` with) ·
       beq bne bgez bgtz blez bltz b j, each with ANY of the above in the delay slot (`lift_correct_pair`).
       PowerPC (every mnemonic the dispatcher lifts except bdnzl and the conditional bclr forms): addi/li addis/lis · add subf addze
@@ -21,7 +21,7 @@
       b bl blr bctr (`ppc_lift_correct`).
   (B) none.
   (C) differential only (`unproved_classes` in the evidence):
-      MIPS: div divu (zero divisor: finding) · madd maddu msub msubu mul · clz clo (loop graphs) ·
+      MIPS: div divu (zero divisor: finding) · madd maddu msub msubu · clz clo (loop graphs) ·
       swl swr (mirrored, not proved) ll sc pref sync · teq syscall break rdhwr · jr jal jalr bal bgezal bltzal (known findings: target /
       condition / link evaluated AFTER the delay slot).   PowerPC: bdnzl (finding: lifted as nop), conditional bclr.
 
@@ -214,6 +214,7 @@ example : (liftBTR true [0x00851021#32] 0x1000).isSome = true := by decide
 example : (liftBTR true [0x10850004#32, 0x24840001#32] 0x1000).isSome = true := by decide
 example : (liftBTR false [0x8c820010#32] 0x1000).isSome = true := by decide      -- lw $v0, 16($a0)
 example : (liftBTR true [0x00850018#32] 0x1000).isSome = true := by decide       -- mult $a0, $a1
+example : (liftBTR true [0x70851002#32] 0x1000).isSome = true := by decide       -- mul $v0, $a0, $a1
 example : (liftBTR true [0x00851022#32] 0x1000).isSome = true := by decide       -- sub $v0, $a0, $a1
 example : (liftBTR false [0x88820003#32] 0x1000).isSome = true := by decide      -- lwl $v0, 3($a0) (mipsel)
 example : (liftBTR true [0x98820003#32] 0x1000).isSome = true := by decide       -- lwr $v0, 3($a0) (mips)
